@@ -263,6 +263,15 @@ impl<'a> G<'a> {
 
 pub fn gen_case(r: &mut Prng) -> (Case, [u64; 4]) {
     let mut g = G { r, case: Case::new("C08"), reg: MReg::builtin(), n: 0, adjacent_pairs: 0, chains: 0, overrides: 0, shadows: 0 };
+    // ASTs parsed once, before every registration of the history, and executed later: a pre-parsed
+    // AST must dispatch to whatever is registered when it is EXECUTED
+    if g.r.chance(1, 2) {
+        g.case.shared = vec![
+            Prog::one(call("f1", vec![lit_i(2), call("min", vec![lit_i(3), lit_i(1)])])),
+            Prog::one(bin("+", un("-", lit_i(5)), post(lit_i(1), "++"))),
+            Prog::one(call("max", vec![lit_i(1), bin("*", lit_i(2), lit_i(3))])),
+        ];
+    }
     let nops = 2 + g.r.usize(11);
     let first_is_reg = g.r.chance(1, 2);
     for i in 0..nops {
@@ -273,6 +282,8 @@ pub fn gen_case(r: &mut Prng) -> (Case, [u64; 4]) {
             } else {
                 g.reg_other()
             }
+        } else if !g.case.shared.is_empty() && g.r.chance(1, 4) {
+            Op::ExecShared { ast: g.r.usize(g.case.shared.len()), ctx: CtxRef::Fresh(CtxSpec::empty()) }
         } else {
             g.evaluation()
         };
@@ -305,7 +316,8 @@ impl Prop for C08 {
                    (fresh word and symbolic names, re-registrations, overrides of built-ins, precedences in 1..=10^9 biased to collide with or sit at +-1/+-2 of \
                    existing levels, both associativities, one associativity per level), interleaved with calls (context function / variable shadowing a \
                    global name, unknown names), prefix/postfix applications, and parses and evaluations of unparenthesised operator chains of 2..5 operators \
-                   over the current table; every handler returns a structural marker. The first operation is a registration in half of the cases \
+                   over the current table, and executions of ASTs that were parsed before the whole history (they must dispatch to what is registered when they are \
+                   executed); every handler returns a structural marker. The first operation is a registration in half of the cases \
                    (registration before first use). evaluations = simulated executions; distinct_nontrivial = distinct histories containing at least two \
                    registrations and one chain",
             assumptions: &[
@@ -341,7 +353,7 @@ impl Prop for C08 {
         }
         let out = rt.sim(&case, &SchedSpec::Lowest);
         rt.fired("fresh_process", 1);
-        if case.pre[0].is_reg() {
+        if case.pre[0].is_reg() && case.shared.is_empty() {
             rt.fired("register_before_first_use", 1);
         }
         if case.pre.iter().filter(|o| o.is_reg()).count() >= 2 {
